@@ -61,7 +61,7 @@ def scenarios():
     }
 
 
-SPELLINGS = ["absolute", "relative-with-dir", "dot-slash", "bare-name", "dotdot"]
+SPELLINGS = ["absolute", "relative-with-dir", "dot-slash", "bare-name", "dotdot", "symlink-elsewhere"]
 
 
 def _sha(p):
@@ -136,6 +136,19 @@ def c17(tier):
                             cwd, arg = indir, "./" + inp
                         elif spelling == "bare-name":
                             cwd, arg = indir, inp
+                        elif spelling == "symlink-elsewhere":
+                            # the input is named through a symbolic link in another directory, under another name; its siblings
+                            # are linked next to it: the run is about the path as given (output next to the link, siblings next to it)
+                            ldir = os.path.join(base, "links")
+                            os.makedirs(ldir)
+                            ext = os.path.splitext(inp)[1]
+                            for fn in files:
+                                if os.sep in fn or fn == inp:
+                                    continue
+                                os.symlink(os.path.join(indir, fn), os.path.join(ldir, fn))
+                            in_abs = os.path.join(ldir, "alias-of-input" + ext)
+                            os.symlink(os.path.join(indir, inp), in_abs)
+                            cwd, arg = elsewhere, in_abs
                         else:
                             cwd, arg = sib, os.path.join("..", "in.d", inp)
                         stem = os.path.splitext(in_abs)[0]
@@ -227,7 +240,7 @@ def c17(tier):
         "evaluations": runs,
         "distinct_nontrivial": len(cells),
         "rule": "full matrix: 14 input scenarios (6 succeed, among them upper-case, double and missing file extensions; 8 fail at the stages locate-input, read-siblings, parse, import, resolve, "
-                "binding) x 5 path spellings/working directories (absolute from an unrelated cwd, dir/name from the parent, ./name and bare "
+                "binding) x 6 path spellings/working directories (a symbolic link in another directory under another name with linked siblings, absolute from an unrelated cwd, dir/name from the parent, ./name and bare "
                 "name from the input directory, ../in/name from a sibling directory) x output {--output absolute, --output relative to cwd, "
                 "default; for two of the spellings also --output with another extension, with none and with two, each next to a "
                 "hand-written file of the name that replacing the extension by .rs would give} x pre-existing output {absent, shorter, longer}. Every cell is one run of the built binary in a fresh scratch tree; "
